@@ -68,7 +68,7 @@ def run(ctx):
     # hop 4/5: parameter lookup by name
     c09.check_filter_table(ctx)
     c09.check_callers(ctx)
-    c09.check_row_index(ctx)
+    c09.check_rows(ctx)
     # hop 6: record state
     from ..staterules import state_roundtrip
     state_roundtrip(ctx, repo.cls('fit_info', 'FitInfo'), exclude=('meta',))
